@@ -3,26 +3,47 @@ import Flowjaxv.Proofs.MassLeaves
 import Flowjaxv.Proofs.NetMass
 import Flowjaxv.Proofs.Params
 import Flowjaxv.Proofs.Planar
+import Flowjaxv.Proofs.NetMassMaf
+import Flowjaxv.Proofs.PlanarMass
+import Flowjaxv.Proofs.BnafMass
+import Flowjaxv.Proofs.PermMass
+import Flowjaxv.Proofs.FlowLayers
 /-!
 # C04 — exp(log_prob) integrates to one, and samples are distributed according to that density
 
 The GLOBAL consequence of invertibility + correct log-determinants.  Everything that mentions
-`Transformed`, `nestTransformed`, `Affine`, `LeakyTanh`, `RationalQuadraticSpline`, `Tanh`,
-`StandardNormal` is about the definitions GENERATED from /repo (`Gen/Dist.lean`, `Gen/Leaves.lean`).
+`Transformed`, `nestTransformed`, `Invert`, `Affine`, `LeakyTanh`, `RationalQuadraticSpline`, `Tanh`, `Flip`,
+`_UnconditionalPlanar`, `logmatmulexp`, `StandardNormal` is about the definitions GENERATED from /repo (`Gen/*.lean`); the
+network bijections (Coupling, MaskedAutoregressive, BlockAutoregressiveNetwork, Permute) are the hand models
+`Model/Masks.lean`, `Model/NetInverse.lean`, `Model/BnafLd.lean`, `Model/Perm.lean`, tied to the code by the correspondences
+this property's check re-runs.
 
 Layer hypotheses (`Proofs/MassFlow.lean`), at a fixed but arbitrary condition `c`:
 * `Mass.InvJac b c` — `b` lawful ℝ ↔ ℝ, the inverse map has a (piecewise) derivative `d ≠ 0` and
   the reported inverse log-det is `log |d|`;
 * `Mass.FwdJac b c` — the forward map has a (piecewise) derivative `d ≠ 0` and the reported
   inverse log-det is `-log |d (inverse y)|`;
-* `Mass.InvJacN b c` — finite-dimensional: the inverse map is differentiable with Jacobian `D y`,
-  `det D y ≠ 0`, inverse log-det `= log |det D y|`.
+* `Mass.InvJacN b c` — finite-dimensional: `b` lawful on `E`, the inverse map is (piecewise: finitely many measurable pieces,
+  `Mass.PiecewiseFDeriv`) differentiable with Jacobian `D y`, `det D y ≠ 0`, inverse log-det `= log |det D y|`;
+* `Mass.FwdJacN b c` — the same through the FORWARD map: Jacobian `J x`, `det ≠ 0`, inverse log-det `= -log |det J (inverse y)|`;
+* `Mass.InvJacN.invert` — the generated `Invert(b)` satisfies `InvJacN` as soon as `b`'s forward map has Jacobian `J` and `b`'s own
+  `transform_and_log_det` reports `log |det J|`: the orientation `Transformed(base, Invert(b))` all flow factories build by default
+  (`invert=True`), in which `log_prob` evaluates `b`'s forward methods only.
 `Mass.PiecewiseDeriv f f'`: derivative `f'` on finitely many disjoint measurable pieces covering ℝ,
 one-sided at piece boundaries (kinks allowed).
 
-PARTIAL with respect to the informal property: the d-dimensional statements take the layer's
-Jacobian facts as hypotheses (`InvJacN`), they are not yet discharged for Coupling / MAF / BNAF /
-Planar; PRNG statistics and rounding are outside.
+Sections: 1–5 change of variables and the bridge to the generated `Transformed`; 3–4 one-dimensional leaves; 6 d dimensions with
+the layer hypotheses as hypotheses; 7 non-vacuity; then the hypotheses DISCHARGED in d dimensions, both orientations, every
+condition: 8 affine Coupling, 9 MaskedAutoregressive with the affine transformer, 10 Planar (tanh: bijectivity of the forward map on
+ℝⁿ proved here; leaky relu: two pieces), 11 BlockAutoregressiveNetwork (default LeakyTanh: no activation hypothesis), 12 Flip /
+Permute, condition-dependent Planar, and any depth / any mixture of all of these (`flowNd_architecture_stack_normalised`,
+`…_chain_normalised`, `…_stack_sample_law`), each with a concrete instance over `StandardNormal((2,))`.
+
+PARTIAL with respect to the informal property: PRNG statistics and rounding are outside; conditioner networks with the default
+`relu` activation are differentiable only off finitely many hyperplane preimages (a null set) — the theorems ask for a
+differentiable activation; spline transformers inside Coupling / MAF are covered in one dimension only; where the library inverts
+numerically (BNAF) or not at all (Planar tanh) the sampler law is stated for the exact inverse; Planar's `w = 0` is excluded (the
+code returns NaN there).
 -/
 open Gen Set MeasureTheory
 
@@ -234,24 +255,36 @@ theorem flowNd_normalised_of {n : ℕ} {C K : Type} (t : Transformed (EuclideanS
     ∫ y, Real.exp (t.toDist.logProb y c) = 1 := by
   rw [Mass.transformed_mass volume t c (h.massOK volume), hbase]
 
-/-- any depth of layers, any finite-dimensional `E`, any additive Haar measure -/
+/-- one layer, either form of the Jacobian hypothesis (inverse map / forward map; finitely many measurable pieces allowed),
+any finite-dimensional `E`, any additive Haar measure -/
+theorem flowNd_normalised_of' {E C K : Type} [NormedAddCommGroup E] [NormedSpace ℝ E]
+    [FiniteDimensional ℝ E] [MeasurableSpace E] [BorelSpace E] (μ : Measure E) [μ.IsAddHaarMeasure]
+    (t : Transformed E C K ℝ) (c : C) (h : Mass.InvJacN t.bijection c ∨ Mass.FwdJacN t.bijection c)
+    (hbase : ∫ z, Real.exp (t.base_dist.logProb z c) ∂μ = 1) :
+    ∫ y, Real.exp (t.toDist.logProb y c) ∂μ = 1 := by
+  rw [Mass.transformed_mass μ t c (h.elim (·.massOK μ) (·.massOK μ)), hbase]
+
+/-- any depth of layers, each with either form of the Jacobian hypothesis, any finite-dimensional `E`, any additive Haar
+measure -/
 theorem flowNd_stack_normalised_of {E C K : Type} [NormedAddCommGroup E] [NormedSpace ℝ E]
     [FiniteDimensional ℝ E] [MeasurableSpace E] [BorelSpace E] (μ : Measure E) [μ.IsAddHaarMeasure]
-    (base : Distn E C K ℝ) (c : C) (bs : List (Bij E C ℝ)) (hall : ∀ b ∈ bs, Mass.InvJacN b c)
+    (base : Distn E C K ℝ) (c : C) (bs : List (Bij E C ℝ))
+    (hall : ∀ b ∈ bs, Mass.InvJacN b c ∨ Mass.FwdJacN b c)
     (hbase : ∫ z, Real.exp (base.logProb z c) ∂μ = 1) :
     ∫ y, Real.exp ((nestTransformed base bs).logProb y c) ∂μ = 1 := by
-  rw [Mass.nest_mass μ base c bs (fun b hb => (hall b hb).massOK μ), hbase]
+  rw [Mass.nest_mass μ base c bs (fun b hb => (hall b hb).elim (·.massOK μ) (·.massOK μ)), hbase]
 
 theorem flowNd_stack_sample_law_of {E C K : Type} [NormedAddCommGroup E] [NormedSpace ℝ E]
     [FiniteDimensional ℝ E] [MeasurableSpace E] [BorelSpace E] (μ : Measure E) [μ.IsAddHaarMeasure]
     [MeasurableSpace K] (κ : Measure K)
-    (base : Distn E C K ℝ) (c : C) (bs : List (Bij E C ℝ)) (hall : ∀ b ∈ bs, Mass.InvJacN b c)
+    (base : Distn E C K ℝ) (c : C) (bs : List (Bij E C ℝ))
+    (hall : ∀ b ∈ bs, Mass.InvJacN b c ∨ Mass.FwdJacN b c)
     (hs : Measurable fun k => base.sample k c)
     (hbase : Measure.map (fun k => base.sample k c) κ
       = μ.withDensity fun z => ENNReal.ofReal (Real.exp (base.logProb z c))) :
     Measure.map (fun k => (nestTransformed base bs).sample k c) κ
       = μ.withDensity fun y => ENNReal.ofReal (Real.exp ((nestTransformed base bs).logProb y c)) :=
-  (Mass.nest_law μ κ base c bs (fun b hb => (hall b hb).lawOK μ) hs hbase).2
+  (Mass.nest_law μ κ base c bs (fun b hb => (hall b hb).elim (·.lawOK μ) (·.lawOK μ)) hs hbase).2
 
 /-! ## 7. non-vacuity -/
 
@@ -292,7 +325,7 @@ theorem flowNd_instance {n : ℕ} {C : Type} (c : C) :
     Mass.InvJacN (Bij.id : Bij (EuclideanSpace ℝ (Fin n)) C ℝ) c := by
   have hdet : (ContinuousLinearMap.id ℝ (EuclideanSpace ℝ (Fin n))).det = 1 := by
     rw [ContinuousLinearMap.det, ContinuousLinearMap.coe_id]; exact LinearMap.det_id
-  refine ⟨Bij.id_lawful univ, fun _ => ContinuousLinearMap.id ℝ _, fun y => ⟨?_, ?_, ?_⟩⟩
+  refine Mass.InvJacN.of_hasFDerivAt (Bij.id_lawful univ) (fun _ => ContinuousLinearMap.id ℝ _) fun y => ⟨?_, ?_, ?_⟩
   · exact hasFDerivAt_id y
   · rw [hdet]; exact one_ne_zero
   · rw [hdet]; simp [Bij.id]
@@ -303,8 +336,8 @@ theorem flowNd_scale_instance {n : ℕ} {C : Type} (a : ℝ) (ha : a ≠ 0) (c :
   have hdet : (a⁻¹ • ContinuousLinearMap.id ℝ (EuclideanSpace ℝ (Fin n))).det = a⁻¹ ^ n := by
     rw [ContinuousLinearMap.det, ContinuousLinearMap.toLinearMap_smul, ContinuousLinearMap.coe_id,
       LinearMap.det_smul, LinearMap.det_id, finrank_euclideanSpace_fin, mul_one]
-  refine ⟨⟨fun _ _ _ => trivial, fun _ _ _ => trivial, ?_, ?_, fun _ _ => rfl, fun _ _ => rfl⟩,
-    fun _ => a⁻¹ • ContinuousLinearMap.id ℝ _, fun y => ⟨?_, ?_, ?_⟩⟩
+  refine Mass.InvJacN.of_hasFDerivAt ⟨fun _ _ _ => trivial, fun _ _ _ => trivial, ?_, ?_, fun _ _ => rfl, fun _ _ => rfl⟩
+    (fun _ => a⁻¹ • ContinuousLinearMap.id ℝ _) fun y => ⟨?_, ?_, ?_⟩
   · intro x _ _; simp [Mass.scaleBij, smul_smul, inv_mul_cancel₀ ha]
   · intro y _ _; simp [Mass.scaleBij, smul_smul, mul_inv_cancel₀ ha]
   · exact (hasFDerivAt_id y).const_smul a⁻¹
@@ -370,7 +403,7 @@ theorem flowNd_coupling_stack_normalised {K : Type} (n : ℕ) (base : Distn (Fin
   refine flowNd_stack_normalised_of volume base c bs ?_ hbase
   intro b hb
   obtain ⟨d, cnd, loc, scale, hdn, hs, hc, rfl⟩ := hall b hb
-  exact coupling_affine_layer d n hdn cnd loc scale hs c hc
+  exact Or.inl (coupling_affine_layer d n hdn cnd loc scale hs c hc)
 
 theorem flowNd_coupling_stack_sample_law {K : Type} [MeasurableSpace K] (κ : Measure K) (n : ℕ)
     (base : Distn (Fin n → ℝ) (List ℝ) K ℝ) (c : List ℝ) (bs : List (Bij (Fin n → ℝ) (List ℝ) ℝ))
@@ -385,7 +418,7 @@ theorem flowNd_coupling_stack_sample_law {K : Type} [MeasurableSpace K] (κ : Me
   refine flowNd_stack_sample_law_of volume κ base c bs ?_ hs hbase
   intro b hb
   obtain ⟨d, cnd, loc, scale, hdn, hs', hc, rfl⟩ := hall b hb
-  exact coupling_affine_layer d n hdn cnd loc scale hs' c hc
+  exact Or.inl (coupling_affine_layer d n hdn cnd loc scale hs' c hc)
 
 /-- non-vacuity: on `ℝ²`, `d = 1`, the NON-LINEAR conditioner `l ↦ l.map (a ↦ a² + 1)`, location = first parameter,
 scale `2`: `(x₀, x₁) ↦ (x₀, 2x₁ + x₀² + 1)` satisfies every hypothesis, at every condition -/
@@ -406,6 +439,429 @@ theorem coupling_affine_instance (c : List ℝ) :
 
 end CouplingNd
 /-! ## ===== END 8. ===== -/
+
+/-! ## ===== BEGIN 9. d dimensions, unconditional for MaskedAutoregressive with the affine transformer =====
+
+The layer is the hand model `Masks.mafBij N tf` (`Model/Masks.lean`, `Model/NetInverse.lean`: masked MLP, the `dim`-pass
+sequential inverse, `Vmap` log-dets) with the GENERATED `Affine` as transformer, `tf ps = Affine(loc ps, scale ps)`, read in
+coordinates on `ℝⁿ` (`NetMass.liftBij`); `Gen.Invert` is the generated `Invert`.  Hypotheses: `N.WellShaped` (the raw arrays have the
+shapes `eqx.nn.MLP` allocates — every weight value is allowed), the activation is differentiable (`hact`; for the default `relu`
+this fails exactly on the finitely many hyperplane preimages where a pre-activation vanishes — a null set, outside these
+theorems), `loc` / `scale` are differentiable functions of the parameter row (`NetMass.RowDiff`; proved for the functions
+`ps ↦ ps[k] + a`, `ps ↦ softplus (ps[k] + a)` that `get_ravelled_pytree_constructor(Affine())` builds), `scale ≠ 0`.
+No Jacobian hypothesis: lawfulness is C01 `maf_lawful`, the determinant and the returned log-det C02 `maf_logdet`,
+differentiability of the whole masked network is proved here (`NetMass.maf_affine_fwd_differentiable`). -/
+section MafNd
+open Masks MasksPf
+
+/-- the affine MAF layer satisfies the d-dimensional layer hypotheses in BOTH orientations, at every condition:
+`Transformed(base, MAF)` (`invert=False`; forward form) and `Transformed(base, Invert(MAF))` (`invert=True`, the default of
+`masked_autoregressive_flow`; `log_prob` = one forward pass of the network) -/
+theorem maf_affine_layer (N : MafNet ℝ) (hN : N.WellShaped) (hact : ∀ z, DifferentiableAt ℝ N.act z)
+    (loc scale : List ℝ → ℝ) (hloc : NetMass.RowDiff loc) (hscale : NetMass.RowDiff scale) (hs : ∀ ps, scale ps ≠ 0)
+    (c : List ℝ) :
+    Mass.FwdJacN (NetMass.liftBij N.dim (mafBij N (NetLogDet.affineFamily loc scale))) c ∧
+    Mass.InvJacN (Gen.Invert.mk (NetMass.liftBij N.dim (mafBij N (NetLogDet.affineFamily loc scale)))).toBij c :=
+  ⟨NetMass.maf_affine_fwdJacN N loc scale hN hact hloc hscale hs c,
+   NetMass.maf_affine_invert_invJacN N loc scale hN hact hloc hscale hs c⟩
+
+/-- the forward map of the affine MAF layer is differentiable at every point of `ℝⁿ` (what C02 `maf_logdet` takes as a
+hypothesis) — every well-shaped masked network with differentiable activation -/
+theorem maf_affine_differentiable (N : MafNet ℝ) (hN : N.WellShaped) (hact : ∀ z, DifferentiableAt ℝ N.act z)
+    (loc scale : List ℝ → ℝ) (hloc : NetMass.RowDiff loc) (hscale : NetMass.RowDiff scale) (c : List ℝ) :
+    Differentiable ℝ (NetLogDet.coords N.dim fun x => (mafBij N (NetLogDet.affineFamily loc scale)).fwd x c) :=
+  NetMass.maf_affine_fwd_differentiable N loc scale hN hact hloc hscale c
+
+/-- the parameter maps of the default transformer: `loc = ps[0] + l₀`, `scale = softplus (ps[1] + r₀) > 0`
+(`constructor(ravelled_params) = unravel(ravelled_params + init)`) satisfy the hypotheses on `loc`, `scale` -/
+theorem maf_default_affine_params (l₀ r₀ : ℝ) :
+    NetMass.RowDiff (fun ps => nth ps 0 + l₀) ∧ NetMass.RowDiff (fun ps => (Transc.softplus (nth ps 1 + r₀) : ℝ)) ∧
+    ∀ ps : List ℝ, (Transc.softplus (nth ps 1 + r₀) : ℝ) ≠ 0 :=
+  ⟨NetMass.rowDiff_nth_add 0 l₀, NetMass.rowDiff_softplus 1 r₀, fun ps => (softplus_pos _).ne'⟩
+
+/-- **`flowNd_maf_normalised`**: `Transformed(base, Invert(MaskedAutoregressive(Affine)))` — the flow
+`masked_autoregressive_flow` builds — over a normalised base on `ℝⁿ` integrates to one; also `Transformed(base, MAF)`
+(`invert=False`).  No Jacobian hypothesis. -/
+theorem flowNd_maf_normalised {K : Type} (N : MafNet ℝ) (hN : N.WellShaped) (hact : ∀ z, DifferentiableAt ℝ N.act z)
+    (loc scale : List ℝ → ℝ) (hloc : NetMass.RowDiff loc) (hscale : NetMass.RowDiff scale) (hs : ∀ ps, scale ps ≠ 0)
+    (base : Distn (Fin N.dim → ℝ) (List ℝ) K ℝ) (c : List ℝ)
+    (hbase : ∫ z, Real.exp (base.logProb z c) = 1) :
+    ∫ y, Real.exp ((Transformed.mk base
+      (Gen.Invert.mk (NetMass.liftBij N.dim (mafBij N (NetLogDet.affineFamily loc scale)))).toBij).toDist.logProb y c) = 1 ∧
+    ∫ y, Real.exp ((Transformed.mk base
+      (NetMass.liftBij N.dim (mafBij N (NetLogDet.affineFamily loc scale)))).toDist.logProb y c) = 1 := by
+  obtain ⟨h1, h2⟩ := maf_affine_layer N hN hact loc scale hloc hscale hs c
+  exact ⟨flowNd_normalised_of' volume _ c (Or.inl h2) hbase, flowNd_normalised_of' volume _ c (Or.inr h1) hbase⟩
+
+/-- an affine MAF layer (`NetMass.IsMafLayer`: some well-shaped network with differentiable activation, differentiable parameter
+maps, non-vanishing scale, either orientation) satisfies one of the two layer hypotheses at every condition -/
+theorem maf_layer_of_isMafLayer {n : ℕ} {b : Bij (Fin n → ℝ) (List ℝ) ℝ} (h : NetMass.IsMafLayer n b) (c : List ℝ) :
+    Mass.InvJacN b c ∨ Mass.FwdJacN b c := h.layer c
+
+/-- **any depth**: a stack of affine MAF layers (each with its own network, weights, parameter maps and orientation) over a
+normalised base integrates to one, at every condition -/
+theorem flowNd_maf_stack_normalised {K : Type} (n : ℕ) (base : Distn (Fin n → ℝ) (List ℝ) K ℝ) (c : List ℝ)
+    (bs : List (Bij (Fin n → ℝ) (List ℝ) ℝ)) (hall : ∀ b ∈ bs, NetMass.IsMafLayer n b)
+    (hbase : ∫ z, Real.exp (base.logProb z c) = 1) :
+    ∫ y, Real.exp ((nestTransformed base bs).logProb y c) = 1 :=
+  flowNd_stack_normalised_of volume base c bs (fun b hb => (hall b hb).layer c) hbase
+
+/-- … and the law of its `sample` (the `dim`-pass sequential inverse in the default orientation) has density
+`exp ∘ log_prob` -/
+theorem flowNd_maf_stack_sample_law {K : Type} [MeasurableSpace K] (κ : Measure K) (n : ℕ)
+    (base : Distn (Fin n → ℝ) (List ℝ) K ℝ) (c : List ℝ) (bs : List (Bij (Fin n → ℝ) (List ℝ) ℝ))
+    (hall : ∀ b ∈ bs, NetMass.IsMafLayer n b)
+    (hs : Measurable fun k => base.sample k c)
+    (hbase : Measure.map (fun k => base.sample k c) κ
+      = volume.withDensity fun z => ENNReal.ofReal (Real.exp (base.logProb z c))) :
+    Measure.map (fun k => (nestTransformed base bs).sample k c) κ
+      = volume.withDensity fun y => ENNReal.ofReal (Real.exp ((nestTransformed base bs).logProb y c)) :=
+  flowNd_stack_sample_law_of volume κ base c bs (fun b hb => (hall b hb).layer c) hs hbase
+
+/-- non-vacuity: the conditional masked network `NetMass.mafTanhExample` (dim 2, one conditioning variable, width 2, depth 1,
+`tanh` activation, weights of both signs) with `loc = ps[0] + 1/2`, `scale = softplus (ps[1] − 1)` satisfies every hypothesis,
+in both orientations, at every condition -/
+theorem maf_affine_instance (c : List ℝ) :
+    NetMass.IsMafLayer 2 (NetMass.liftBij 2 (mafBij NetMass.mafTanhExample
+      (NetLogDet.affineFamily (fun ps => nth ps 0 + 1 / 2) (fun ps => (Transc.softplus (nth ps 1 + -1) : ℝ))))) ∧
+    NetMass.IsMafLayer 2 (Gen.Invert.mk (NetMass.liftBij 2 (mafBij NetMass.mafTanhExample
+      (NetLogDet.affineFamily (fun ps => nth ps 0 + 1 / 2) (fun ps => (Transc.softplus (nth ps 1 + -1) : ℝ)))))).toBij := by
+  obtain ⟨h1, h2, h3⟩ := maf_default_affine_params (1 / 2) (-1)
+  exact ⟨⟨NetMass.mafTanhExample, rfl, _, _, NetMass.mafTanhExample_wellShaped, NetMass.tanh_differentiableAt, h1, h2, h3,
+      Or.inl rfl⟩,
+    ⟨NetMass.mafTanhExample, rfl, _, _, NetMass.mafTanhExample_wellShaped, NetMass.tanh_differentiableAt, h1, h2, h3,
+      Or.inr rfl⟩⟩
+
+/-- a complete concrete flow: `StandardNormal((2,))` pushed through two layers — `Invert(MAF)` then `MAF` of the example
+network — integrates to one at EVERY value of the conditioning variable -/
+theorem maf_flow_instance {K : Type} (smp : K → List ℝ → Fin 2 → ℝ) (c : List ℝ) :
+    ∫ y, Real.exp ((nestTransformed (Mass.stdNormalN 2 smp)
+      [(Gen.Invert.mk (NetMass.liftBij 2 (mafBij NetMass.mafTanhExample
+          (NetLogDet.affineFamily (fun ps => nth ps 0 + 1 / 2) (fun ps => (Transc.softplus (nth ps 1 + -1) : ℝ)))))).toBij,
+       NetMass.liftBij 2 (mafBij NetMass.mafTanhExample
+          (NetLogDet.affineFamily (fun ps => nth ps 0 + 1 / 2) (fun ps => (Transc.softplus (nth ps 1 + -1) : ℝ))))]).logProb y c) = 1 := by
+  refine flowNd_maf_stack_normalised 2 _ c _ ?_ (Mass.stdNormalN_normalised 2 smp c)
+  intro b hb
+  simp only [List.mem_cons, List.not_mem_nil, or_false] at hb
+  rcases hb with rfl | rfl
+  · exact (maf_affine_instance c).2
+  · exact (maf_affine_instance c).1
+
+end MafNd
+/-! ## ===== END 9. ===== -/
+
+/-! ## ===== BEGIN 10. d dimensions, unconditional for Planar layers =====
+
+About the methods GENERATED from `_UnconditionalPlanar` (`Gen/Planar.lean`, with the generated constraint `get_act_scale`).
+`planar_flow` builds `Transformed(base, Invert(Scan(layers)))` by default, so `log_prob` evaluates the FORWARD methods
+`transform` / `transform_and_log_det` only: the density is `q(x) = p(f(x)) · |det J_f(x)|`.
+
+* `activation = tanh`: the library implements no inverse.  `PlanarMass.tanhBij n p` is the record whose forward methods are the
+  generated ones and whose `inverse` is the mathematical inverse of the forward map — it exists because the map is a bijection of
+  `ℝⁿ` (`planar_tanh_bijective`, for every `w ≠ 0`, unconstrained `u`, bias: `w·û > −1` is the generated constraint).  In
+  `Invert(·)` that inverse is the `transform` used by `sample` only (`NotImplementedError` in the library), never by `log_prob`:
+  `planar_tanh_log_prob` spells the density out in generated code.
+* leaky relu, slope `0 < s ≤ 1` (C01 `planar_lrelu_lawful`; `s > 1` is known finding `planar_steep`): piecewise affine, kink on the
+  hyperplane `w·x + b = 0` (null); pieces `{w·x + b ≥ 0}` (slope 1 — the value the code's log-det uses ON the kink) and its complement. -/
+section PlanarNd
+
+/-- **the generated `transform` of a tanh planar layer is a bijection of `ℝⁿ`** — every `w ≠ 0`, unconstrained `u`, bias -/
+theorem planar_tanh_bijective {n : ℕ} (p : UnconditionalPlanar ℝ) (hw : p.weight.length = n)
+    (hu : p._act_scale.length = n) (hne : Jnp.dot p.weight p.weight ≠ 0) :
+    Function.Bijective (VecLd.coordMap n p.transform_tanh) :=
+  PlanarMass.transform_tanh_bijective ⟨hw, hu, hne⟩
+
+/-- the reduction behind it: `x ↦ x + û·tanh(w·x + b)` is injective and onto `ℝⁿ` as soon as `w·û > −1` -/
+theorem planar_tanh_vector_bijective {n : ℕ} (w û : Fin n → ℝ) (hc : -1 < w ⬝ᵥ û) (b : ℝ) :
+    Function.Bijective (PlanarPf.fwdV Real.tanh w û b) :=
+  PlanarMass.fwdV_tanh_bijective w û hc b
+
+/-- both orientations of the tanh planar layer satisfy the layer hypotheses, at every condition -/
+theorem planar_tanh_layer {C : Type} {n : ℕ} (p : UnconditionalPlanar ℝ) (hw : p.weight.length = n)
+    (hu : p._act_scale.length = n) (hne : Jnp.dot p.weight p.weight ≠ 0) (c : C) :
+    Mass.InvJacN (Gen.Invert.mk (PlanarMass.tanhBij n p : Bij (Fin n → ℝ) C ℝ)).toBij c ∧
+    Mass.FwdJacN (PlanarMass.tanhBij n p : Bij (Fin n → ℝ) C ℝ) c :=
+  ⟨PlanarMass.tanh_invert_invJacN ⟨hw, hu, hne⟩ c, PlanarMass.tanh_fwdJacN ⟨hw, hu, hne⟩ c⟩
+
+/-- what `log_prob` of `Transformed(base, Invert(Planar(tanh)))` computes: generated code only —
+`base.log_prob(transform x) + transform_and_log_det(x)[1]` -/
+theorem planar_tanh_log_prob {C K : Type} {n : ℕ} (p : UnconditionalPlanar ℝ) (base : Distn (Fin n → ℝ) C K ℝ) (c : C)
+    (x : Fin n → ℝ) :
+    (Transformed.mk base (Gen.Invert.mk (PlanarMass.tanhBij n p : Bij (Fin n → ℝ) C ℝ)).toBij).toDist.logProb x c
+      = base.logProb (VecLd.toVec n (p.transform_and_log_det_tanh (List.ofFn x)).1) c
+        + (p.transform_and_log_det_tanh (List.ofFn x)).2 := rfl
+
+/-- **`flowNd_planar_tanh_normalised`**: the density `planar_flow` evaluates, `q(x) = p(f(x))·|det J_f(x)|` with `f` the generated
+tanh planar `transform`, integrates to one over `ℝⁿ` for every `w ≠ 0`, unconstrained `u`, bias, at every condition -/
+theorem flowNd_planar_tanh_normalised {C K : Type} {n : ℕ} (p : UnconditionalPlanar ℝ) (hw : p.weight.length = n)
+    (hu : p._act_scale.length = n) (hne : Jnp.dot p.weight p.weight ≠ 0)
+    (base : Distn (Fin n → ℝ) C K ℝ) (c : C) (hbase : ∫ z, Real.exp (base.logProb z c) = 1) :
+    ∫ x : Fin n → ℝ, Real.exp (base.logProb (VecLd.toVec n (p.transform_and_log_det_tanh (List.ofFn x)).1) c
+        + (p.transform_and_log_det_tanh (List.ofFn x)).2) = 1 := by
+  have h := flowNd_normalised_of' volume
+    (Transformed.mk base (Gen.Invert.mk (PlanarMass.tanhBij n p : Bij (Fin n → ℝ) C ℝ)).toBij) c
+    (Or.inl (planar_tanh_layer p hw hu hne c).1) hbase
+  exact h
+
+/-- both orientations of the leaky-relu planar layer satisfy the layer hypotheses (kink on a hyperplane: two pieces) -/
+theorem planar_lrelu_layer {C : Type} {n : ℕ} (p : UnconditionalPlanar ℝ) (hw : p.weight.length = n)
+    (hu : p._act_scale.length = n) (hne : Jnp.dot p.weight p.weight ≠ 0) {s : ℝ} (hs0 : 0 < s) (hs1 : s ≤ 1) (c : C) :
+    Mass.InvJacN (Gen.Invert.mk (NetMass.liftBij n (Planar.lreluBij p s : Bij (List ℝ) C ℝ))).toBij c ∧
+    Mass.FwdJacN (NetMass.liftBij n (Planar.lreluBij p s : Bij (List ℝ) C ℝ)) c :=
+  ⟨PlanarMass.lrelu_invert_invJacN ⟨hw, hu, hne⟩ hs0 hs1 c, PlanarMass.lrelu_fwdJacN ⟨hw, hu, hne⟩ hs0 hs1 c⟩
+
+/-- **`flowNd_planar_lrelu_normalised`**: `Transformed(base, Invert(Planar(negative_slope=s)))` (the `planar_flow` default) and
+`Transformed(base, Planar(negative_slope=s))` integrate to one, every `w ≠ 0`, `u`, bias, `0 < s ≤ 1` -/
+theorem flowNd_planar_lrelu_normalised {C K : Type} {n : ℕ} (p : UnconditionalPlanar ℝ) (hw : p.weight.length = n)
+    (hu : p._act_scale.length = n) (hne : Jnp.dot p.weight p.weight ≠ 0) {s : ℝ} (hs0 : 0 < s) (hs1 : s ≤ 1)
+    (base : Distn (Fin n → ℝ) C K ℝ) (c : C) (hbase : ∫ z, Real.exp (base.logProb z c) = 1) :
+    ∫ y, Real.exp ((Transformed.mk base
+      (Gen.Invert.mk (NetMass.liftBij n (Planar.lreluBij p s : Bij (List ℝ) C ℝ))).toBij).toDist.logProb y c) = 1 ∧
+    ∫ y, Real.exp ((Transformed.mk base
+      (NetMass.liftBij n (Planar.lreluBij p s : Bij (List ℝ) C ℝ))).toDist.logProb y c) = 1 := by
+  obtain ⟨h1, h2⟩ := planar_lrelu_layer p hw hu hne hs0 hs1 c
+  exact ⟨flowNd_normalised_of' volume _ c (Or.inl h1) hbase, flowNd_normalised_of' volume _ c (Or.inr h2) hbase⟩
+
+/-- a planar layer (`PlanarMass.IsPlanarLayer`: tanh or leaky relu with slope in `(0, 1]`, `w ≠ 0`, either orientation) satisfies one
+of the two layer hypotheses at every condition -/
+theorem planar_layer_of_isPlanarLayer {C : Type} {n : ℕ} {b : Bij (Fin n → ℝ) C ℝ} (h : PlanarMass.IsPlanarLayer C n b) (c : C) :
+    Mass.InvJacN b c ∨ Mass.FwdJacN b c := h.layer c
+
+/-- any depth of planar layers (each with its own parameters, activation and orientation): normalised, and `sample` (where the
+inverse is the mathematical one for tanh) has law `exp ∘ log_prob` -/
+theorem flowNd_planar_stack_normalised {C K : Type} (n : ℕ) (base : Distn (Fin n → ℝ) C K ℝ) (c : C)
+    (bs : List (Bij (Fin n → ℝ) C ℝ)) (hall : ∀ b ∈ bs, PlanarMass.IsPlanarLayer C n b)
+    (hbase : ∫ z, Real.exp (base.logProb z c) = 1) :
+    ∫ y, Real.exp ((nestTransformed base bs).logProb y c) = 1 :=
+  flowNd_stack_normalised_of volume base c bs (fun b hb => (hall b hb).layer c) hbase
+
+theorem flowNd_planar_stack_sample_law {C K : Type} [MeasurableSpace K] (κ : Measure K) (n : ℕ)
+    (base : Distn (Fin n → ℝ) C K ℝ) (c : C) (bs : List (Bij (Fin n → ℝ) C ℝ)) (hall : ∀ b ∈ bs, PlanarMass.IsPlanarLayer C n b)
+    (hs : Measurable fun k => base.sample k c)
+    (hbase : Measure.map (fun k => base.sample k c) κ
+      = volume.withDensity fun z => ENNReal.ofReal (Real.exp (base.logProb z c))) :
+    Measure.map (fun k => (nestTransformed base bs).sample k c) κ
+      = volume.withDensity fun y => ENNReal.ofReal (Real.exp ((nestTransformed base bs).logProb y c)) :=
+  flowNd_stack_sample_law_of volume κ base c bs (fun b hb => (hall b hb).layer c) hs hbase
+
+/-- non-vacuity: `w = (1, 0)`, `u = (0, 3)`, `b = 0` on `ℝ²` is a planar layer in all four forms (slope `1/2` for leaky relu) -/
+theorem planar_instance :
+    PlanarMass.IsPlanarLayer Unit 2 (Gen.Invert.mk (PlanarMass.tanhBij 2 (⟨[1, 0], [0, 3], (0 : ℝ)⟩ : UnconditionalPlanar ℝ))).toBij ∧
+    PlanarMass.IsPlanarLayer Unit 2 (NetMass.liftBij 2 (Planar.lreluBij (⟨[1, 0], [0, 3], (0 : ℝ)⟩ : UnconditionalPlanar ℝ) (1 / 2))) := by
+  have hne : Jnp.dot ([1, 0] : List ℝ) [1, 0] ≠ 0 := by simp [ParamsPf.jdot_eq]
+  exact ⟨⟨_, ⟨rfl, rfl, hne⟩, Or.inl rfl⟩,
+    ⟨_, ⟨rfl, rfl, hne⟩, Or.inr (Or.inr ⟨1 / 2, by norm_num, by norm_num, Or.inr rfl⟩)⟩⟩
+
+/-- a complete concrete flow: the density `planar_flow` evaluates for a two-layer stack (tanh, then leaky relu) over
+`StandardNormal((2,))` integrates to one -/
+theorem planar_flow_instance {K : Type} (smp : K → Unit → Fin 2 → ℝ) :
+    ∫ y, Real.exp ((nestTransformed (Mass.stdNormalN 2 smp)
+      [(Gen.Invert.mk (PlanarMass.tanhBij 2 (⟨[1, 0], [0, 3], (0 : ℝ)⟩ : UnconditionalPlanar ℝ))).toBij,
+       NetMass.liftBij 2 (Planar.lreluBij (⟨[1, 0], [0, 3], (0 : ℝ)⟩ : UnconditionalPlanar ℝ) (1 / 2))]).logProb y ()) = 1 := by
+  refine flowNd_planar_stack_normalised 2 _ () _ ?_ (Mass.stdNormalN_normalised 2 smp ())
+  intro b hb
+  simp only [List.mem_cons, List.not_mem_nil, or_false] at hb
+  rcases hb with rfl | rfl
+  · exact planar_instance.1
+  · exact planar_instance.2
+
+end PlanarNd
+/-! ## ===== END 10. ===== -/
+
+/-! ## ===== BEGIN 11. d dimensions, unconditional for BlockAutoregressiveNetwork =====
+
+`BnafMass.bnafBij A act dim bd Ls condLinear`: the hand models `Masks.bnafTransform` and `Masks.bnafTransformAndLogDet` (the code's
+log-space computation with the GENERATED `logmatmulexp`) in coordinates; its `inverse` is the exact inverse, which the library
+approximates with the numerical inverter (C10 tolerance).  `Transformed(base, Invert(BNAF))` — the
+`block_neural_autoregressive_flow` default — evaluates `log_prob` through `transform_and_log_det` only.
+Hypotheses: `BnafLd.ActOK A act` (the activation's `transform_and_log_det` is `(act z, log act' z)`, `act` differentiable, `act' > 0`) and
+`act` onto ℝ — both PROVED for the default `LeakyTanh(max_val)`, any `max_val > 0` (section 4: `tanh` is not onto, mass deficit);
+`NetLawful.BnafOK` (shapes `BlockAutoregressiveNetwork.__init__` allocates, `block_dim ≥ 1`, every weight value). -/
+section BnafNd
+open Masks MasksPf
+
+/-- the modelled BNAF forward map is a bijection of `ℝ^dim` -/
+theorem bnaf_bijective {A : ℝ → ℝ × ℝ} {act : ℝ → ℝ} (hA : BnafLd.ActOK A act) (hsurj : Function.Surjective act)
+    {dim depth bd : ℕ} {Ls : List (BnafLayer ℝ)} {condLinear : Option (List (List ℝ))}
+    (hok : NetLawful.BnafOK dim depth bd Ls condLinear) (c : List ℝ) :
+    Function.Bijective (NetLogDet.coords dim fun x => bnafTransform act Ls condLinear x c) :=
+  BnafMass.fwdC_bijective (BnafMass.actOK_strictMono hA) hsurj hok c
+
+/-- both orientations of the BNAF layer satisfy the layer hypotheses, at every condition -/
+theorem bnaf_layer {A : ℝ → ℝ × ℝ} {act : ℝ → ℝ} (hA : BnafLd.ActOK A act) (hsurj : Function.Surjective act)
+    {dim depth bd : ℕ} {Ls : List (BnafLayer ℝ)} {condLinear : Option (List (List ℝ))}
+    (hok : NetLawful.BnafOK dim depth bd Ls condLinear) (c : List ℝ) :
+    Mass.InvJacN (Gen.Invert.mk (BnafMass.bnafBij A act dim bd Ls condLinear)).toBij c ∧
+    Mass.FwdJacN (BnafMass.bnafBij A act dim bd Ls condLinear) c :=
+  ⟨BnafMass.bnaf_invert_invJacN hA hsurj hok c, BnafMass.bnaf_fwdJacN hA hsurj hok c⟩
+
+/-- the default activation: no activation hypothesis left -/
+theorem bnaf_leakytanh_layer {m : ℝ} (hm : 0 < m) {dim depth bd : ℕ} {Ls : List (BnafLayer ℝ)}
+    {condLinear : Option (List (List ℝ))} (hok : NetLawful.BnafOK dim depth bd Ls condLinear) (c : List ℝ) :
+    Mass.InvJacN (Gen.Invert.mk (BnafMass.bnafBij (fun z => LeakyTanh.transform_and_log_det (LeakyTanh.init m) z)
+      (LeakyTanh.transform (LeakyTanh.init m)) dim bd Ls condLinear)).toBij c ∧
+    Mass.FwdJacN (BnafMass.bnafBij (fun z => LeakyTanh.transform_and_log_det (LeakyTanh.init m) z)
+      (LeakyTanh.transform (LeakyTanh.init m)) dim bd Ls condLinear) c :=
+  bnaf_layer (BnafLd.leakyTanh_actOK hm) (BnafMass.leakyTanh_surjective hm) hok c
+
+/-- what `log_prob` of `Transformed(base, Invert(BNAF))` computes: the modelled `transform_and_log_det` only; its log-det is
+always finite (`some`), so reading it with `.getD 0` loses nothing -/
+theorem bnaf_log_prob {K : Type} {A : ℝ → ℝ × ℝ} {act : ℝ → ℝ} (hA : BnafLd.ActOK A act)
+    {dim depth bd : ℕ} {Ls : List (BnafLayer ℝ)} {condLinear : Option (List (List ℝ))}
+    (hok : NetLawful.BnafOK dim depth bd Ls condLinear) (base : Distn (Fin dim → ℝ) (List ℝ) K ℝ) (c : List ℝ)
+    (x : Fin dim → ℝ) :
+    ∃ ld : ℝ, (bnafTransformAndLogDet A dim bd Ls condLinear (List.ofFn x) c).2 = some ld ∧
+      (Transformed.mk base (Gen.Invert.mk (BnafMass.bnafBij A act dim bd Ls condLinear)).toBij).toDist.logProb x c
+        = base.logProb (fun i => nth (bnafTransformAndLogDet A dim bd Ls condLinear (List.ofFn x) c).1 i) c + ld :=
+  ⟨_, BnafMass.bnafBij_fwdLd_some hA hok c x, rfl⟩
+
+/-- **`flowNd_bnaf_normalised`**: `Transformed(base, Invert(BlockAutoregressiveNetwork))` with the default `LeakyTanh(m)`
+activation over a normalised base on `ℝ^dim` integrates to one — all well-shaped weights, every depth, block_dim ≥ 1, every
+condition; also `Transformed(base, BNAF)` with the exact inverse -/
+theorem flowNd_bnaf_normalised {K : Type} {m : ℝ} (hm : 0 < m) {dim depth bd : ℕ} {Ls : List (BnafLayer ℝ)}
+    {condLinear : Option (List (List ℝ))} (hok : NetLawful.BnafOK dim depth bd Ls condLinear)
+    (base : Distn (Fin dim → ℝ) (List ℝ) K ℝ) (c : List ℝ) (hbase : ∫ z, Real.exp (base.logProb z c) = 1) :
+    ∫ y, Real.exp ((Transformed.mk base (Gen.Invert.mk (BnafMass.bnafBij
+      (fun z => LeakyTanh.transform_and_log_det (LeakyTanh.init m) z) (LeakyTanh.transform (LeakyTanh.init m))
+      dim bd Ls condLinear)).toBij).toDist.logProb y c) = 1 ∧
+    ∫ y, Real.exp ((Transformed.mk base (BnafMass.bnafBij
+      (fun z => LeakyTanh.transform_and_log_det (LeakyTanh.init m) z) (LeakyTanh.transform (LeakyTanh.init m))
+      dim bd Ls condLinear)).toDist.logProb y c) = 1 := by
+  obtain ⟨h1, h2⟩ := bnaf_leakytanh_layer hm hok c
+  exact ⟨flowNd_normalised_of' volume _ c (Or.inl h1) hbase, flowNd_normalised_of' volume _ c (Or.inr h2) hbase⟩
+
+/-- the same for any admissible activation (`ActOK`, onto ℝ), e.g. a callable with positive derivative that is onto -/
+theorem flowNd_bnaf_normalised_of_act {K : Type} {A : ℝ → ℝ × ℝ} {act : ℝ → ℝ} (hA : BnafLd.ActOK A act)
+    (hsurj : Function.Surjective act) {dim depth bd : ℕ} {Ls : List (BnafLayer ℝ)}
+    {condLinear : Option (List (List ℝ))} (hok : NetLawful.BnafOK dim depth bd Ls condLinear)
+    (base : Distn (Fin dim → ℝ) (List ℝ) K ℝ) (c : List ℝ) (hbase : ∫ z, Real.exp (base.logProb z c) = 1) :
+    ∫ y, Real.exp ((Transformed.mk base
+      (Gen.Invert.mk (BnafMass.bnafBij A act dim bd Ls condLinear)).toBij).toDist.logProb y c) = 1 :=
+  flowNd_normalised_of' volume _ c (Or.inl (bnaf_layer hA hsurj hok c).1) hbase
+
+/-- a BNAF layer (`BnafMass.IsBnafLayer`: admissible activation onto ℝ, well-shaped weights, either orientation) satisfies one of the
+two layer hypotheses at every condition -/
+theorem bnaf_layer_of_isBnafLayer {n : ℕ} {b : Bij (Fin n → ℝ) (List ℝ) ℝ} (h : BnafMass.IsBnafLayer n b) (c : List ℝ) :
+    Mass.InvJacN b c ∨ Mass.FwdJacN b c := h.layer c
+
+/-- any depth of BNAF layers: normalised; the law of `sample` — computed with the EXACT inverse; the library's bisection inverter
+approximates it within the C10 tolerance — has density `exp ∘ log_prob` -/
+theorem flowNd_bnaf_stack_normalised {K : Type} (n : ℕ) (base : Distn (Fin n → ℝ) (List ℝ) K ℝ) (c : List ℝ)
+    (bs : List (Bij (Fin n → ℝ) (List ℝ) ℝ)) (hall : ∀ b ∈ bs, BnafMass.IsBnafLayer n b)
+    (hbase : ∫ z, Real.exp (base.logProb z c) = 1) :
+    ∫ y, Real.exp ((nestTransformed base bs).logProb y c) = 1 :=
+  flowNd_stack_normalised_of volume base c bs (fun b hb => (hall b hb).layer c) hbase
+
+theorem flowNd_bnaf_stack_sample_law {K : Type} [MeasurableSpace K] (κ : Measure K) (n : ℕ)
+    (base : Distn (Fin n → ℝ) (List ℝ) K ℝ) (c : List ℝ) (bs : List (Bij (Fin n → ℝ) (List ℝ) ℝ))
+    (hall : ∀ b ∈ bs, BnafMass.IsBnafLayer n b)
+    (hs : Measurable fun k => base.sample k c)
+    (hbase : Measure.map (fun k => base.sample k c) κ
+      = volume.withDensity fun z => ENNReal.ofReal (Real.exp (base.logProb z c))) :
+    Measure.map (fun k => (nestTransformed base bs).sample k c) κ
+      = volume.withDensity fun y => ENNReal.ofReal (Real.exp ((nestTransformed base bs).logProb y c)) :=
+  flowNd_stack_sample_law_of volume κ base c bs (fun b hb => (hall b hb).layer c) hs hbase
+
+/-- non-vacuity: `MasksPf.bnafExample` (dim 2, depth 1, block_dim 1, weights of both signs) with the default `LeakyTanh(3)` -/
+theorem bnaf_instance :
+    BnafMass.IsBnafLayer 2 (Gen.Invert.mk (BnafMass.bnafBij (fun z => LeakyTanh.transform_and_log_det (LeakyTanh.init (3 : ℝ)) z)
+      (LeakyTanh.transform (LeakyTanh.init 3)) 2 1 bnafExample none)).toBij :=
+  ⟨_, _, 1, 1, _, _, BnafLd.leakyTanh_actOK (by norm_num), BnafMass.leakyTanh_surjective (by norm_num),
+    NetLawful.bnafExample_ok, Or.inl rfl⟩
+
+/-- a complete concrete flow: `Transformed(StandardNormal((2,)), Invert(BNAF))` for the example network with the default
+activation integrates to one -/
+theorem bnaf_flow_instance {K : Type} (smp : K → List ℝ → Fin 2 → ℝ) (c : List ℝ) :
+    ∫ y, Real.exp ((Transformed.mk (Mass.stdNormalN 2 smp)
+      (Gen.Invert.mk (BnafMass.bnafBij (fun z => LeakyTanh.transform_and_log_det (LeakyTanh.init (3 : ℝ)) z)
+        (LeakyTanh.transform (LeakyTanh.init 3)) 2 1 bnafExample none)).toBij).toDist.logProb y c) = 1 :=
+  (flowNd_bnaf_normalised (by norm_num) NetLawful.bnafExample_ok _ c (Mass.stdNormalN_normalised 2 smp c)).1
+
+end BnafNd
+/-! ## ===== END 11. ===== -/
+
+/-! ## ===== BEGIN 12. permutation layers, condition-dependent planar layers, whole architectures =====
+
+`_add_default_permute` puts `Flip` (dim 2; GENERATED, `Gen/Misc.lean`) or `Permute(perm)` (dim > 2; hand model `PermModel`, C07) after every
+layer of the flow factories; both are coordinate permutations, `|det| = 1`, log-det `0` (`Proofs/PermMass.lean`).  A conditional `Planar`
+computes its parameter vector from the condition (`Planar.get_planar(condition)`, model `Planar.getPlanar`): `Bij.dep`. -/
+section ArchNd
+open Masks MasksPf
+
+theorem flip_layer {C : Type} (n : ℕ) (c : C) :
+    Mass.InvJacN (NetMass.liftBij n (PermMass.flipBij : Bij (List ℝ) C ℝ)) c ∧
+    Mass.InvJacN (Gen.Invert.mk (NetMass.liftBij n (PermMass.flipBij : Bij (List ℝ) C ℝ))).toBij c :=
+  ⟨PermMass.flip_invJacN c, PermMass.flip_invert_invJacN c⟩
+
+/-- every permutation the `Permute` constructor accepts (`PermModel.valid perm`), every length -/
+theorem permute_layer {C : Type} (perm : List ℕ) (h : PermModel.valid perm = true) (c : C) :
+    Mass.InvJacN (NetMass.liftBij perm.length (PermMass.permuteBij perm : Bij (List ℝ) C ℝ)) c ∧
+    Mass.InvJacN (Gen.Invert.mk (NetMass.liftBij perm.length (PermMass.permuteBij perm : Bij (List ℝ) C ℝ))).toBij c :=
+  ⟨PermMass.permute_invJacN perm ((PermModel.valid_iff perm).mp h) c,
+   PermMass.permute_invert_invJacN perm ((PermModel.valid_iff perm).mp h) c⟩
+
+/-- **conditional Planar (tanh)**: the parameter vector is ANY function `cnd` of the condition (the conditioner MLP) whose output
+has length `2n+1` and non-zero weight block; `Invert(·)` (the `planar_flow(cond_dim=…)` default) and the direct orientation satisfy
+the layer hypotheses at every condition -/
+theorem planar_conditional_layer {C : Type} {n : ℕ} (cnd : C → List ℝ)
+    (hcnd : ∀ c, (cnd c).length = 2 * n + 1 ∧ Jnp.dot ((cnd c).take n) ((cnd c).take n) ≠ 0) (c : C) :
+    Mass.InvJacN (Gen.Invert.mk (Bij.dep fun c' => (PlanarMass.tanhBij n (Planar.getPlanar n (cnd c')) : Bij (Fin n → ℝ) C ℝ))).toBij c ∧
+    Mass.FwdJacN (Bij.dep fun c' => (PlanarMass.tanhBij n (Planar.getPlanar n (cnd c')) : Bij (Fin n → ℝ) C ℝ)) c :=
+  FlowLayers.planar_conditional cnd hcnd c
+
+/-- a layer of one of the flow architectures on `ℝⁿ` (`FlowLayers.IsFlowLayer`: affine coupling, affine MAF, planar — also with
+condition-dependent parameters —, BNAF, each in either orientation where it has one, or a `Flip` / `Permute` placed between layers)
+satisfies one of the two layer hypotheses at every condition -/
+theorem layer_of_isFlowLayer {n : ℕ} {b : Bij (Fin n → ℝ) (List ℝ) ℝ} (h : FlowLayers.IsFlowLayer n b) (c : List ℝ) :
+    Mass.InvJacN b c ∨ Mass.FwdJacN b c := h.layer c
+
+/-- **any depth, any mixture of architectures**: a stack of flow layers over a normalised base on `ℝⁿ` integrates to one at every
+condition -/
+theorem flowNd_architecture_stack_normalised {K : Type} (n : ℕ) (base : Distn (Fin n → ℝ) (List ℝ) K ℝ) (c : List ℝ)
+    (bs : List (Bij (Fin n → ℝ) (List ℝ) ℝ)) (hall : ∀ b ∈ bs, FlowLayers.IsFlowLayer n b)
+    (hbase : ∫ z, Real.exp (base.logProb z c) = 1) :
+    ∫ y, Real.exp ((nestTransformed base bs).logProb y c) = 1 :=
+  flowNd_stack_normalised_of volume base c bs (fun b hb => (hall b hb).layer c) hbase
+
+/-- the same for ONE `Transformed` over the `Chain` of the layers (what `merge_transforms` produces and what the factories'
+`Scan` unrolls to) -/
+theorem flowNd_architecture_chain_normalised {K : Type} (n : ℕ) (base : Distn (Fin n → ℝ) (List ℝ) K ℝ) (c : List ℝ)
+    (bs : List (Bij (Fin n → ℝ) (List ℝ) ℝ)) (hall : ∀ b ∈ bs, FlowLayers.IsFlowLayer n b)
+    (hbase : ∫ z, Real.exp (base.logProb z c) = 1) :
+    ∫ y, Real.exp ((mergeTransforms base bs).logProb y c) = 1 := by
+  rw [← flowNd_architecture_stack_normalised n base c bs hall hbase]
+  congr 1; funext y
+  rw [(Gen.merge_transforms_sem base bs).logProb]
+
+/-- … and the law of `sample` has density `exp ∘ log_prob` (exact inverses where the library inverts numerically or not at all) -/
+theorem flowNd_architecture_stack_sample_law {K : Type} [MeasurableSpace K] (κ : Measure K) (n : ℕ)
+    (base : Distn (Fin n → ℝ) (List ℝ) K ℝ) (c : List ℝ) (bs : List (Bij (Fin n → ℝ) (List ℝ) ℝ))
+    (hall : ∀ b ∈ bs, FlowLayers.IsFlowLayer n b)
+    (hs : Measurable fun k => base.sample k c)
+    (hbase : Measure.map (fun k => base.sample k c) κ
+      = volume.withDensity fun z => ENNReal.ofReal (Real.exp (base.logProb z c))) :
+    Measure.map (fun k => (nestTransformed base bs).sample k c) κ
+      = volume.withDensity fun y => ENNReal.ofReal (Real.exp ((nestTransformed base bs).logProb y c)) :=
+  flowNd_stack_sample_law_of volume κ base c bs (fun b hb => (hall b hb).layer c) hs hbase
+
+/-- non-vacuity: the 2-D flow `StandardNormal → Invert(MAF example) → Flip → Invert(BNAF example)` integrates to one at every condition -/
+theorem architecture_flow_instance {K : Type} (smp : K → List ℝ → Fin 2 → ℝ) (c : List ℝ) :
+    ∫ y, Real.exp ((nestTransformed (Mass.stdNormalN 2 smp)
+      [(Gen.Invert.mk (NetMass.liftBij 2 (mafBij NetMass.mafTanhExample
+          (NetLogDet.affineFamily (fun ps => nth ps 0 + 1 / 2) (fun ps => (Transc.softplus (nth ps 1 + -1) : ℝ)))))).toBij,
+       NetMass.liftBij 2 PermMass.flipBij,
+       (Gen.Invert.mk (BnafMass.bnafBij (fun z => LeakyTanh.transform_and_log_det (LeakyTanh.init (3 : ℝ)) z)
+          (LeakyTanh.transform (LeakyTanh.init 3)) 2 1 bnafExample none)).toBij]).logProb y c) = 1 := by
+  refine flowNd_architecture_stack_normalised 2 _ c _ ?_ (Mass.stdNormalN_normalised 2 smp c)
+  intro b hb
+  simp only [List.mem_cons, List.not_mem_nil, or_false] at hb
+  rcases hb with rfl | rfl | rfl
+  · exact Or.inl (maf_affine_instance c).2
+  · exact Or.inr (Or.inr (Or.inr (Or.inr (Or.inl rfl))))
+  · exact Or.inr (Or.inr (Or.inl bnaf_instance))
+
+end ArchNd
+/-! ## ===== END 12. ===== -/
 
 /-! ### Planar layers: the invertibility constraint that normalisation rests on -/
 
